@@ -15,7 +15,7 @@ RULE = ('every transfer type/mode x every outcome (success; one run per fault po
         'request (0 allowed only if a cancel preceded it, and then no request at all); on_done exactly once per subscriber, with '
         'future.done() true, no request of the transfer still in flight or beginning later, no cleanup (abort / temp removal / write) '
         'later, no on_progress later; a raising on_done does not suppress the others; a provided size suppresses HeadObject; '
-        'non-trivial = on_done observed for every subscriber and at least one S3 request or a cancel-before-start; distinct = (shape, '
+        'also: duck-typed partial subscribers, on_queued/on_done ordering (no on_queued after or around an on_done of the same transfer); non-trivial = on_done observed for every subscriber and at least one S3 request or a cancel-before-start; distinct = (shape, '
         'interleaving signature)')
 ASSUMPTIONS = ['result()-does-not-block inside on_done is probed by the re-entrant subscriber families of C04']
 CASE_TIMEOUT = 120.0
